@@ -33,6 +33,9 @@ pub(crate) fn recv_pending_accept_is_empty(r: &Recv) -> bool {
 pub(crate) fn recv_init_window(r: &Recv) -> u32 {
     r.init_window_sz
 }
+pub(crate) fn recv_set_init_window(r: &mut Recv, v: u32) {
+    r.init_window_sz = v;
+}
 pub(crate) fn recv_ext_connect(r: &Recv) -> bool {
     r.is_extended_connect_protocol_enabled
 }
